@@ -213,6 +213,12 @@ def t_choices_sharded_equals_local():
                     (agg.schedules, agg.complete, agg.horizon_hits, len(agg.keys), agg.answers), (cfg, tt, r["schedules"], agg.schedules)
                 assert r["keys"] == agg.keys and r["exhaustive"]
                 assert r["traces_validated_against_impl"] >= r["schedules"] // 3 - 2 * tt - 1
+        # several explorations through the same barriers give the same per-exploration results
+        specs = [{"cfg": c, "horizon": h, "bound_deviations": k, "validate_stride": 2} for c, h, k in cases]
+        many = choices.explore_many(pool, "selftest.st_choices", "toy_factory", specs, target_tasks=9)
+        for (cfg, h, k), r in zip(cases, many):
+            agg, _ = choices.enumerate_local(toy_factory(cfg), horizon=h, bound_deviations=k)
+            assert (r["schedules"], r["complete"], r["horizon_hits"], r["keys"]) == (agg.schedules, agg.complete, agg.horizon_hits, agg.keys)
     # an expired deadline is reported, never silently treated as complete
     r = choices.explore(None, "selftest.st_choices", "toy_factory", cases[0][0], 6, deadline=1.0)
     assert not r["exhaustive"]
